@@ -1,6 +1,7 @@
 """C25 — concurrent senders get unique consecutive sequence numbers."""
 from ..facts import Program, AnalysisBroken
 from .. import q
+from . import c17
 
 CLAIM = {
     'text': 'Lock-scope / who-may-call rules: Session::send_process (which assigns, persists and increments the send counter and owns '
@@ -20,7 +21,7 @@ EXPLANATION = (
     "with _pmodel == pm_pipeline; pipelined writes go to _msg_queue.try_push; execute() pops one message per iteration and is the queue's "
     "only consumer; R25.2 Session::_batchmsgs_buffer is referenced only in send_process; each `_persist->…` call is inside a guard on "
     "_per_spl (disabled only for pm_coro), exemption: handle_resend_request's `_persist->get` (taking the lock there self-deadlocks "
-    "through retrans_callback → send → send_process). NOT decided: any interleaving.")
+    "through retrans_callback → send → send_process). R25.4 the bytes stored under a number derive only from that message's encoder output and the store sits before the counter update (rules of C17). NOT decided: any interleaving.")
 
 S = 'FIX8::Session::'
 W = 'FIX8::FIXWriter::'
@@ -150,5 +151,8 @@ def run(ctx):
             gr = q.guard_ranges(f, lock_member_qp=S + '_per_spl')
             ctx.check(any(cfg.vertex_of(w) in g[3] for g in gr), 'R25.2', f.qp + '#persist.assign', w.loc,
                       'the persister pointer is replaced only with _per_spl held')
+    # R25.4 'the stored copy under each number is the transmitted message': provenance and placement of the store (rules of C17)
+    c17.rules(ctx, prog, 'R25.4', 'R25.4')
+    ctx.floor('R25.4', 6)
     ctx.floor('R25.1', 10)
     ctx.floor('R25.2', 8)
